@@ -56,6 +56,7 @@ type pureCase struct {
 	jsonOut bool   // the model's output is JSON text: compare as canonical JSON trees
 	key     string // key of the spec violation (for known findings)
 	noModel bool   // only the spec monitor applies to this case
+	prop    string // property the spec violation belongs to (empty: the property whose check runs the suite)
 }
 
 type mismatch struct {
@@ -137,7 +138,7 @@ func runAgainstDriver(driver string, suite string, rule string, exhaustive bool,
 			if c.specErr != "" {
 				res.SpecViolationCount++
 				if len(res.SpecViolations) < 20 {
-					res.SpecViolations = append(res.SpecViolations, mismatch{Line: c.line, Impl: c.impl, Model: c.specErr, Key: c.key})
+					res.SpecViolations = append(res.SpecViolations, mismatch{Line: c.line, Impl: c.impl, Model: c.specErr, Key: c.key, Prop: c.prop})
 				}
 			}
 		}
